@@ -74,6 +74,7 @@ type memConn struct {
 	// fault plan
 	failWrite       int // index of Write call to fail (-1 none)
 	failRead        int
+	writeDeadFrom   int // >= 0: every Write with this index or a later one fails (a broken link; reads stay healthy)
 	failReadErr     error // error returned by the failing Read (default errInjected)
 	failDead        int
 	shortWrite      int            // index of Write call that transfers only half and returns io.ErrShortWrite
@@ -87,7 +88,7 @@ type memConn struct {
 }
 
 func newMemConn() *memConn {
-	c := &memConn{failWrite: -1, failRead: -1, failDead: -1, shortWrite: -1}
+	c := &memConn{failWrite: -1, failRead: -1, failDead: -1, shortWrite: -1, writeDeadFrom: -1}
 	c.cond = sync.NewCond(&c.mu)
 	return c
 }
@@ -161,7 +162,7 @@ func (c *memConn) Write(p []byte) (int, error) {
 		c.mu.Unlock()
 		return 0, net.ErrClosed
 	}
-	if idx == c.failWrite {
+	if idx == c.failWrite || (c.writeDeadFrom >= 0 && idx >= c.writeDeadFrom) {
 		c.ops = append(c.ops, opRec{Kind: "W", Err: true})
 		c.mu.Unlock()
 		return 0, errInjected
